@@ -54,9 +54,9 @@ pub trait Runtime: Sync {
     fn sleep(&self);
     /// A non-atomic dereference of crate-internal bookkeeping memory at `addr` is about to happen.
     fn touch(&self, addr: usize);
-    fn on_alloc(&self, addr: usize, bytes: usize);
+    fn on_alloc(&self, addr: usize, bytes: usize, align: usize);
     /// Returns true when the block must be quarantined (kept allocated) instead of freed.
-    fn on_dealloc(&self, addr: usize, bytes: usize) -> bool;
+    fn on_dealloc(&self, addr: usize, bytes: usize, align: usize) -> bool;
 }
 
 static RUNTIME: StdAtomicPtr<&'static dyn Runtime> = StdAtomicPtr::new(std::ptr::null_mut());
@@ -97,15 +97,15 @@ pub fn touch<T>(p: *const T) {
     }
 }
 
-pub fn on_alloc(addr: usize, bytes: usize) {
+pub fn on_alloc(addr: usize, bytes: usize, align: usize) {
     if let Some(r) = rt() {
-        r.on_alloc(addr, bytes)
+        r.on_alloc(addr, bytes, align)
     }
 }
 
-pub fn on_dealloc(addr: usize, bytes: usize) -> bool {
+pub fn on_dealloc(addr: usize, bytes: usize, align: usize) -> bool {
     match rt() {
-        Some(r) => r.on_dealloc(addr, bytes),
+        Some(r) => r.on_dealloc(addr, bytes, align),
         None => false,
     }
 }
